@@ -227,6 +227,23 @@ def u_fit(space, y1d=False, precomputed=False):
         if space == 'auto':
             I.ob('post[C03]:auto-space-follows-the-shape', (n > m) if sp == 'feature' else (n <= m), kind='post')
         pxt, pty = ML.mat_of(I, o.attrs['pxt_']), None
+        # end to end: which matrices fit hands to the route it takes (the roles of X, the true targets Y and the approximated targets Yhat = X W must not be mixed up)
+        Ym_ = ML.mat_of(I, Y); V_ = I.cur.get('V'); dg_ = list(I.cur.get('diags', []))
+        Yh_ = Ym_ if precomputed else mul(Xm, Wm)          # regressor='precomputed': the targets handed in ARE the approximated targets
+        if y1d: pass
+        elif sp == 'feature':
+            ca = I.cur.get('cov_args')
+            I.ob('post[C03]:fit-builds-the-modified-covariance-from-the-configured-mixing-the-data-and-the-regressor-predictions',
+                 BoolVal(False) if ca is None else And(BoolVal(is_sym(ca[0]) and z3.eq(ca[0], alpha)), BoolVal(ca[1].id == X.id), ML.mat_of(I, ca[2]) == Yh_, BoolVal(is_sym(ca[3]) and z3.eq(ca[3], tol))), kind='post')
+            if not y1d:
+                I.ob('post[C03]:fit-computes-the-latent-to-Y-projector-from-the-true-targets',
+                     BoolVal(False) if (V_ is None or not dg_ or 'iC' not in I.cur) else ML.mat_of(I, o.attrs['pty_']) == mul(dg_[-1], mul(V_, mul(I.cur['iC'], mul(T(Xm), Ym_)))), kind='post')
+        elif sp == 'sample':
+            Kt_ = add(smul(alpha, mul(Xm, T(Xm))), smul(1 - alpha, mul(Yh_, T(Yh_))))
+            I.ob('post[C03]:fit-decomposes-the-modified-gram-matrix-of-the-data-and-the-regressor-predictions', BoolVal(False) if 'Mdec' not in I.cur else I.cur['Mdec'] == Kt_, kind='post')
+            if not y1d:
+                I.ob('post[C03]:fit-computes-the-latent-to-Y-projector-from-the-true-targets',
+                     BoolVal(False) if (V_ is None or not dg_) else ML.mat_of(I, o.attrs['pty_']) == mul(T(mul(T(V_), dg_[-1])), Ym_), kind='post')
         PXY = I.A(o.attrs['pxy_']); PTY = I.A(o.attrs['pty_'])
         if y1d:
             I.ob('post[C14]:one-dimensional-targets-give-one-dimensional-coefficient-vectors', BoolVal(PXY.ndim == 1 and PTY.ndim == 1) if not (PXY.ndim == 1 and PTY.ndim == 1) else And(tz(PXY.shape[0]) == m, tz(PTY.shape[0]) == k), kind='post')
